@@ -60,7 +60,7 @@ def build():
     u.add(u.fn(RL, 'analyze_ip_reload_text', sub='reload', ret='r', props=(),
                pre_rewrite=[('for (idx, line) in text.lines().enumerate() {', 'let lines_v = str_lines(text);\n    for (idx, line) in lines_v.iter().enumerate() {', 1),
                             ('let trimmed = line.trim();', 'let trimmed = str_trim(line);', 1),
-                            ('if trimmed.is_empty() {', 'if str_is_empty(trimmed) {', 1),
+                            (re.compile(r'\btrimmed\.is_empty\(\)'), 'str_is_empty(trimmed)', None),
                             (re.compile(r'IpAddr::from_str\((\w+)\)'), r'ip_from_str(\1)', None)],
                ensures=[
                    C('C19.reload.refused_iff_no_parsable_address', '(r is Refuse) == (parsed(%s, %s).len() == 0)' % (L, N)),
